@@ -42,6 +42,9 @@ var detTypes = map[string]string{
 	"x": "{\n  \"p\": 1, // {min: 2}\n  \"q\": \"s\" // {maxLength: 0}\n}",
 	"g": "{ // {allOf: \"@a\"}\n  \"gk\": 1\n}",
 	"f": `"123e4567-e89b-12d3-a456-426614174000" // {type: "uuid", minLength: 2, maxLength: 256, regex: "^1"}`,
+	"i": "{\n  \"name\": \"abc\" // {optional: true, minItems: 1, min: 2, maxItems: 5}\n}",
+	"j": "{ // {allOf: \"@i\"}\n  \"jk\": 1\n}",
+	"p": "{\n  \"p\": 1 // {or: [{type: \"@n6\", nullable: true}, {type: \"string\"}]}\n}",
 }
 
 func detRoot(root string, types []string) string {
